@@ -36,9 +36,9 @@ def engine_flags(e):
 # runs per (tier, engine, property); C14 counts base plans (each is enumerated)
 RUNS = {
     'quick': {'evloop': 60000, 'netio': 40000, 'http': 30000, 'containers': 60000,
-              'entropy': 1500, 'secrets': 20000},
+              'entropy': 1500, 'secrets': 20000, 'secrets_hw': 10000},
     'thorough': {'evloop': 2000000, 'netio': 1500000, 'http': 1000000, 'containers': 3000000,
-                 'entropy': 60000, 'secrets': 1000000},
+                 'entropy': 60000, 'secrets': 1000000, 'secrets_hw': 300000},
 }
 RUNS_C14 = {
     'quick': {'evloop': 700, 'netio': 400, 'http': 200, 'containers': 400},
@@ -654,7 +654,7 @@ def mutant(patch, props):
             print('%s: exit=%d %.0fs %s' % (prop, r.returncode, time.time() - t0, ' | '.join(v)[:600]))
             if r.returncode not in (0, 1):
                 print(r.stderr[-1500:])
-            if r.returncode == 1:
+            if r.returncode == 1 and any(l.startswith('VIOLATION property=%s ' % prop) for l in r.stdout.splitlines()):
                 caught.append(prop)
                 if os.environ.get('VERIF_SHOW_REPLAY'):
                     for l in r.stdout.splitlines():
@@ -799,4 +799,13 @@ def main():
 
 
 if __name__ == '__main__':
-    sys.exit(main())
+    try:
+        rc = main()
+    except SystemExit:
+        raise
+    except BaseException:
+        # an error of the machinery is never a verdict about the property
+        import traceback
+        traceback.print_exc()
+        rc = 2
+    sys.exit(rc)
